@@ -25,6 +25,7 @@ KINK_MARGIN = Fraction(1, 8)
 P_SET_SAME = 0.04   # share of hess -> setter -> hess histories on the classes whose cost object is built at construction
 P_SET = 0.04      # share of hess -> setter -> hess histories (storage)
 P_FNX = 0.3       # share of cases from vk/gen_fnx.py (function classes outside the Lean `Fn` embedding: oracle only)
+LONG_SHARE = 80   # per LONG_SHARE cases: one storage / thermal Hessian at n in {7, 9, 13} and one numdifftools-class function at n in {6, 9, 12}
 ND_SHARE = 20     # one dedicated ADevice(f = TemporalVariance) case (n <= 4, strictly positive box) per ND_SHARE cases, appended
 ND_HESS_TOL = 1e-4   # implementation's nd.Hessian vs the analytic Hessian tvarHess (measured worst 2.0e-10 over 7476 generator cases)
 
@@ -73,7 +74,12 @@ def convex_case(case):
     return bool(case.get('convex_fn'))
   if d['cls'] == 'IDevice':
     return all(b >= 1 for b in idev_bs(d))
-  return True   # gen_leaf draws GDevice / SDevice / HLQ parameters inside the convex region
+  if d['cls'] == 'GDevice':      # honest flag: convex in the generated quantity q = -s over [-hb, -lb] (signed / high-degree coefficients)
+    cc = d['prm']['cost_coeffs']; lb = [F(x) for x in d['lb']]; hb = [F(x) for x in d['hb']]
+    if isinstance(cc[0], list):
+      return all(gen_fnx._poly_convex(row, -hb[i], -lb[i]) for i, row in enumerate(cc))
+    return gen_fnx._poly_convex(cc, -max(hb), -min(lb))
+  return True   # gen_leaf draws SDevice / HLQ parameters inside the convex region
 
 
 def storage_state(d, s):
@@ -196,6 +202,10 @@ class C14(Prop):
       if cls == 'ADevice' and rng.random() < 0.5:
         convex_fn(d['prm']['f'], [F(x) for x in d['lb']], [F(x) for x in d['hb']])
         case['convex_fn'] = True
+      if cls == 'GDevice' and rng.random() < 0.4:      # degree 4-5, signed lower-order coefficients (half of them repaired to be convex)
+        d['prm']['cost_coeffs'] = gen_fnx.rich_coeffs(rng, n, [F(x) for x in d['lb']], [F(x) for x in d['hb']], convex=rng.random() < 0.5)
+      if cls == 'CDevice2' and rng.random() < 0.3:     # 4-5 contiguous cumulative ranges
+        gen_fnx.wide_cbounds(rng, d)
       if cls == 'IDevice' and rng.random() < 0.3:     # real exponents: theorem idevice_hess + oracle, no rational model
         bs = ['3/2', '5/2', '5/4', '1/2', '3', '1', '65/64']
         d['prm']['b'] = rng.choice(bs) if rng.random() < 0.5 else [rng.choice(bs) for _ in range(n)]
@@ -216,7 +226,43 @@ class C14(Prop):
       out.append(case)
     for _ in range(count // ND_SHARE):      # appended after the existing stream: the existing cases of a seed are unchanged
       out.append(self.tvar_case(rng, tier))
+    for _ in range(min(40, max(2, count // LONG_SHARE))):      # a handful: numdifftools is O(n^2) cost evaluations per Hessian
+      out.append(self.long_numeric_case(rng, tier))
+      out.append(self.long_nd_case(rng, tier))
     return out
+
+  def long_numeric_case(self, rng, tier):
+    """storage / thermal Hessians on horizons 7, 9, 13 (the ordinary stream keeps them at n <= 4 because numdifftools is O(n^2)):
+    judged by the second-difference oracle only -- the whole diagonal, the neighbouring pairs and a few random pairs; thermal: diagonal."""
+    cls = rng.choice(['SDevice', 'TDevice'])
+    n = rng.choice([7, 9, 13])
+    case = leaf_case(rng, tier, [cls], n=n, flow_mode='interior')
+    pr = case['dev']['prm']
+    if cls == 'SDevice':
+      if rng.random() < 0.6:
+        pr['c3'] = '0'                    # one quadratic: no kink anywhere
+      if F(pr['c2']) == 0 and F(pr['c1']) > 0 and rng.random() < 0.8:
+        pr['c2'] = fs(F(pr['c1'])/2)      # neighbouring slots coupled: the Hessian is not diagonal
+      case['ij'] = [[i, i] for i in range(n)] + [[i, i + 1] for i in range(n - 1)] + [sorted(rng.sample(range(n), 2)) for _ in range(6)]
+    else:
+      if pr['t_range'] == '0':
+        pr['t_range'] = '2'
+      case['ij'] = [[i, i] for i in range(n)]
+    case['long'] = True
+    return case
+
+  def long_nd_case(self, rng, tier):
+    """the numdifftools-based preference functions (top level) on horizons 6, 9, 12: oracle only (Jacobian of deriv, second differences)."""
+    n = rng.choice([6, 9, 12])
+    kind = rng.choice(['cobb', 'cobb', 'tvar', 'entropy'])
+    lb = [dy(rng, Fraction(1, 2), 2) for _ in range(n)]; hb = [a + dy(rng, 0, 3) for a in lb]
+    fx = {'k': kind, 'c': fs(dy(rng, Fraction(1, 4), 2))}
+    if kind == 'cobb':
+      fx['a'] = [fs(dy(rng, Fraction(1, 4), 3)) for _ in range(n)]
+    d = {'cls': 'ADevice', 'n': n, 'lb': [fs(x) for x in lb], 'hb': [fs(x) for x in hb], 'cbs': [], 'prm': {'fx': fx}, '_py': {'bform': 'table', 'cform': None}}
+    s = gen.gen_flow(rng, lb, hb, 'interior')
+    return {'dev': d, 's': [fs(x) for x in s], 'p': gen.gen_price(rng, n), '_shape': rng.choice(['flat', 'row']), 'fnx': True, 'long': True,
+            'ij': [[i, i] for i in rng.sample(range(n), 4)] + [sorted(rng.sample(range(n), 2)) for _ in range(8)]}
 
   def tvar_case(self, rng, tier):
     """ADevice(f = TemporalVariance(c)) on a strictly positive box, n <= 4: T2 `fnnd.hess` plus the oracle every fnx case gets."""
